@@ -30,7 +30,7 @@ LEAN_TARGETS = ["Eliot.Properties.C11"]
 AUDIT = "Eliot/Audit/C11.lean"
 GENERATED_OBLIGATIONS = ["Generated.fileDestCall = EJ.stdShape"]
 THEOREMS = ["EJ.C11.crash_prefix", "EJ.C11.acked_after", "EJ.C11.reader_drops_only_fragment", "EJ.C11.crash_readable",
-            "EJ.C11.crash_readable_file", "EJ.C11.crash_parse"]
+            "EJ.C11.crash_readable_file", "EJ.C11.crash_parse", "EJ.C11.crash_parse_flat"]
 RULE = ("program = 1-6 top-level tasks of nested start_action / log_message (depth <= 3, 3-60 messages, fields incl. strings "
         "of 8 KiB - 1 MiB that force chunked writes; in 40% of the programs some fields hold a value whose JSON default hook itself "
         "logs a message from inside the destination - re-entrant logging, acknowledged like any other call); kill = right after such a nested call returned,  self-SIGKILL before write / in write at chunk boundary or byte "
